@@ -20,15 +20,15 @@ def tla_set(xs):
     return "{" + ", ".join(xs) + "}"
 
 
-def consts(keys, nreq, mbs, modes, prefeds, holesets):
+def consts(keys, nreq, mbs, modes, prefeds, holesets, errs=True, cancels=True):
     ks = lambda s: tla_set(str(k) for k in s)
     return ("CONSTANT Keys = %s\nCONSTANT NReq = %d\nCONSTANT MaxBatches = %s\nCONSTANT Modes = %s\nCONSTANT Prefeds = %s\n"
-            "CONSTANT HoleSets = %s\nCONSTANT Errs = TRUE\nCONSTANT Cancels = TRUE\n"
+            "CONSTANT HoleSets = %s\nCONSTANT Errs = %s\nCONSTANT Cancels = %s\n"
             % (ks(keys), nreq, ks(mbs), tla_set('"%s"' % m for m in modes), tla_set(ks(p) for p in prefeds),
-               tla_set(ks(h) for h in holesets)))
+               tla_set(ks(h) for h in holesets), "TRUE" if errs else "FALSE", "TRUE" if cancels else "FALSE"))
 
 
-def model_check(c, label, cfg_text, liveness, timeout):
+def model_check(c, label, cfg_text, liveness, timeout, actions):
     cfg = c.path("MC_%d.cfg" % len(c.cov["tlc_runs"]))
     with open(cfg, "w") as f:
         f.write(cfg_text + ("SPECIFICATION Spec\nPROPERTY Completes\n" if liveness else "INIT Init\nNEXT Next\n")
@@ -36,7 +36,7 @@ def model_check(c, label, cfg_text, liveness, timeout):
     m = vlib.run_tlc("conc/DataLoader.tla", cfg, workers=8, coverage=True, timeout=timeout, xmx="16g")
     if m.invariant_violated:
         raise vlib.ToolError("design-level failure in DataLoader.tla (%s): %s" % (label, m.invariant_violated))
-    for act in ACTIONS:
+    for act in actions:
         if m.coverage.get("DataLoader!" + act, (0, 0))[0] == 0:
             raise vlib.ToolError("vacuity: action %s never taken in mode M (%s)" % (act, label))
     c.add_tlc("M " + label, m)
@@ -73,17 +73,19 @@ def hostile(rng, nreq, keys):
 def body(c):
     all_cfg = dict(mbs=[1, 2, 3], modes=MODES, prefeds=[[], [1]], holesets=[[]])
     # ---- mode M ---------------------------------------------------------------------------------------------------------
+    acts = [a for a in ACTIONS if a != "Cancel"]
     if c.quick:
-        model_check(c, "3 requests over 2 keys, batch 1-3, cache none/map/lru1/disabled (lru2 = map on 2 keys), Ok/Err, cancellation: invariants",
-                    consts([1, 2], 3, **dict(all_cfg, prefeds=[[]], modes=["none", "map", "lru1", "mapoff"])), False, 900)
+        model_check(c, "3 requests over 3 keys, batch 1-3, all cache modes, loader Ok: invariants",
+                    consts([1, 2, 3], 3, errs=False, cancels=False, **dict(all_cfg, prefeds=[[]])), False, 900, acts)
         model_check(c, "2 requests over 2 keys, batch 1-3, all cache modes, pre-fed cache, Ok/Err, cancellation: invariants + liveness",
-                    consts([1, 2], 2, **all_cfg), True, 900)
+                    consts([1, 2], 2, **all_cfg), True, 900, ACTIONS)
     else:
+        model_check(c, "3 requests over 3 keys, batch 1-3, all cache modes, pre-fed cache, loader Ok: invariants",
+                    consts([1, 2, 3], 3, errs=False, cancels=False, **all_cfg), False, 3000, acts)
+        model_check(c, "3 requests over 3 keys, batch 2, lru1, pre-fed cache, Ok/Err, cancellation: invariants",
+                    consts([1, 2, 3], 3, **dict(all_cfg, mbs=[2], modes=["lru1"], prefeds=[[1]])), False, 3000, ACTIONS)
         model_check(c, "3 requests over 2 keys, batch 1-3, all cache modes, pre-fed cache, Ok/Err, cancellation: invariants + liveness",
-                    consts([1, 2], 3, **all_cfg), True, 1800)
-        for mb in (1, 2, 3):
-            model_check(c, "3 requests over 3 keys, batch %d, all cache modes, pre-fed cache, Ok/Err, cancellation: invariants" % mb,
-                        consts([1, 2, 3], 3, **dict(all_cfg, mbs=[mb])), False, 3000)
+                    consts([1, 2], 3, **all_cfg), True, 3000, ACTIONS)
 
     # ---- mode G ---------------------------------------------------------------------------------------------------------
     rng = random.Random(c.seed)
